@@ -336,7 +336,7 @@ pub fn generate(seed: u64, run: u64, prop: &str) -> Generated {
     // parameters of a run do not move): floors, caps and "at least this much" guards live there
     let mut rx = Rng::stream(seed, run, "params_extreme");
     if rx.chance(0.12) {
-        params.tau_share = *rx.pick(&[0.001, 0.01, 0.02, 0.04, 0.049, 0.96, 0.99, 0.999]);
+        params.tau_share = *rx.pick(&[0.0, 0.001, 0.01, 0.02, 0.04, 0.049, 0.96, 0.99, 0.999, 1.0]);
         tags.push("extreme_tau_share".into());
     }
     // budgets far from the usual order of magnitude
